@@ -23,6 +23,10 @@ from zorg.storage.sql import SQLSession
 
 _LOGGER = Logger(__name__)
 
+# Hash map entry of a page that has been indexed but whose file has not been
+# rewritten yet (see reindex_database).
+_WRITE_BACK_PENDING = ""
+
 _AddThingToFirstLine = Callable[[str, str], str]
 _GetThing = Callable[[Note], str]
 
@@ -251,6 +255,13 @@ def reindex_database(
     if cmd.paths:
         # Only the given pages were hashed, so keep every other page's entry.
         file_to_hash = old_file_to_hash | file_to_hash
+    # A page whose ZIDs or modify dates still have to be written back to its
+    # file is recorded with a hash that matches no file. The write-back puts
+    # the real hash in; a run that dies before it is picked up by the next run.
+    for zorg_page in session.repo.seen_pages:
+        if zorg_page.events:
+            zorg_page_name = c.strip_zdir(cmd.zettel_dir, zorg_page.path)
+            file_to_hash[zorg_page_name] = _WRITE_BACK_PENDING
     # The hash map is what tells the next run that there is nothing left to
     # do, so the index is committed before it is written.
     session.commit()
